@@ -26,7 +26,7 @@ PROFILES = {
     "C07": {"burst": 0.25, "bad": 0.02, "leave": 0.08, "early_reset": 0.10},
     "C09": {"burst": 0.25, "bad": 0.25, "leave": 0.03, "out_of_order": 0.3},
     "C10": {"burst": 0.25, "bad": 0.03, "leave": 0.20},
-    "C16": {"burst": 0.25, "bad": 0.04, "leave": 0.04, "early_reset": 0.2},
+    "C16": {"burst": 0.25, "bad": 0.04, "leave": 0.04, "early_reset": 0.2, "twin_session": 0.3, "force_env_some": {"save_trajectories": 0.6}},
     "C18": {"burst": 0.25, "bad": 0.03, "leave": 0.20, "extra_connect": 0.15},
 }
 # additional batches: (share of the session budget, profile)
@@ -78,6 +78,9 @@ def _worker(args):
             CC2.run_sessions(drv, rng, tables, lambda t, s_, d, r: fails.append((sorted(t), s_, d, r)), stats, max(1, int(n_sessions * share)), n_events, prof)
         if prop in DIRECTED:
             CC2.directed_sessions(drv, rng, tables, lambda t, s_, d, r: fails.append((sorted(t), s_, d, r)), stats, max(4, n_sessions // 10))
+            CC2.directed_races(drv, rng, tables, lambda t, s_, d, r: fails.append((sorted(t), s_, d, r)), stats, max(4, n_sessions // 10))
+        if prop == "C09":
+            CC2.twin_sessions(drv, rng, tables, lambda t, s_, d, r: fails.append((sorted(t), s_, d, r)), stats, max(4, n_sessions // 5))
     finally:
         drv.close()
     stats.pop("focus", None)
@@ -125,6 +128,9 @@ def main(prop, tier):
                 CC.run_sessions(drv, rng, info["tables"]["defender"], on_fail, stats, max(1, int(n_sessions * share)), n_events, prof)
             if prop in DIRECTED:
                 CC.directed_sessions(drv, rng, info["tables"]["defender"], on_fail, stats, 16)
+                CC.directed_races(drv, rng, info["tables"]["defender"], on_fail, stats, 24)
+            if prop == "C09":
+                CC.twin_sessions(drv, rng, info["tables"]["defender"], on_fail, stats, 40)
         finally:
             drv.close()
     bk = stats.get("by_kind", {})
@@ -142,7 +148,7 @@ def main(prop, tier):
            "rule": "random sessions of 1-4 connections (required players 1-4, role mixes, max_steps, reward tables, goals over all six view parts, defender on/off) against the real coordinator and the Lean model in lock-step; non-trivial = " + rule + " (counted per occurrence in distinct sessions/events)",
            "samples": stats.get("samples", [])[:2], "traces_validated_against_impl": stats.get("sessions", 0),
            "events_by_kind": bk, "parked_by_barrier": stats.get("parked", {}), "file_records_compared": stats.get("file_records", 0), "goal_check_cases": stats.get("goal_cases", 0), "goal_check_true": stats.get("goal_true", 0),
-           "sessions_full_scenario_random_start": stats.get("sessions_full_scenario_random_start", 0), "sessions_dynamic_addresses": stats.get("sessions_dynamic_addresses", 0), "directed_sessions": stats.get("directed_sessions", 0), "bursts": stats.get("bursts", 0),
+           "sessions_full_scenario_random_start": stats.get("sessions_full_scenario_random_start", 0), "sessions_dynamic_addresses": stats.get("sessions_dynamic_addresses", 0), "directed_sessions": stats.get("directed_sessions", 0), "directed_races": stats.get("directed_races", 0), "twin_sessions": stats.get("twin_sessions", 0), "twin_rejected_left_out": stats.get("twin_rejected_left_out", 0), "bursts": stats.get("bursts", 0),
            "out_of_scope_disagreements": other, "proof_failures": V.proof_failures}
     write_evidence(prop, tier, "proof", cov, T.s(), nviol,
                    ["one read = one client message (TCP coalescing not modelled)", "a peer address is reused only after its earlier connection is closed",
